@@ -1744,15 +1744,22 @@ def _unparenthesize_grouping(self: fst.FST, shared: bool | None = True, *, star_
         self._put_src(None, pln, pcol, ln, col, False)
 
     else:  # in all other case we need to make sure par is not separating us from an alphanumeric on either side, and if so then just replace that par with a space
+        direct = False  # whether we wrote directly to the lines, in which case nothing was offset or touched
+
         if pend_col >= 2 and _re_par_close_alnums.match(l := lines[pend_ln], pend_col - 2):
             lines[pend_ln] = bistr(l[:pend_col - 1] + ' ' + l[pend_col:])
+            direct = True
         else:
             self._put_src(None, end_ln, end_col, pend_ln, pend_col, True, self)
 
         if pcol and _re_par_open_alnums.match(l := lines[pln], pcol - 1):
             lines[pln] = bistr(l[:pcol] + ' ' + l[pcol + 1:])
+            direct = True
         else:
             self._put_src(None, pln, pcol, ln, col, False)
+
+        if direct:
+            self._touchall(True, True, False)  # the cached `pars()` from above and whatever parents derived from it
 
     return True
 
